@@ -301,10 +301,16 @@ def is_declared_symbol(node):
     Requires that global information has been populated via
     ``collect_information``.
     """
-    return node.is_leaf() and (node.data in __sort_lookup
-                               or node.data in __other_symbols
-                               or node in __datatypes_constructors
-                               or node in __datatypes_selectors)
+    if not node.is_leaf():
+        return False
+    # |x| and x are two spellings of one symbol
+    if is_piped_symbol(node):
+        other = get_piped_symbol(node)
+    else:
+        other = Node(f'|{node.data}|')
+    return any(n.data in __sort_lookup or n.data in __other_symbols
+               or n in __datatypes_constructors or n in __datatypes_selectors
+               for n in (node, other))
 
 
 def is_piped_symbol(node):
